@@ -14,6 +14,7 @@ Binding: spec/Gen_Retention.tla exports (segment set x pass kind/limit x interru
   `*`, `* | stats count by seg_marker`, the metrics selector query, segmeta.json, metricmeta.json, the
   empty-PQ meta files and the directories with the property and with the model.
 """
+import concurrent.futures as cf
 import glob
 import json
 import os
@@ -617,6 +618,9 @@ def run_behaviour(binary, beh, conc, allow_mount=True, victims=None):
     except vlib.DriverDead as e:
         if e.kind == "hang":
             raise vlib.Infra("engine did not answer in time (machine load?): %s" % e)
+        if e.rc in (-9, -15):
+            # SIGKILL / SIGTERM come from outside (OOM killer, somebody's cleanup): the engine did not end by itself
+            raise Skip("engine-killed-by-signal")
         return {"died": str(e), "trace": sc.trace}
     finally:
         sc.cleanup()
@@ -844,29 +848,31 @@ def run(chk):
     binary = vlib.build_driver()
     mount_ok = can_mount()
 
-    # ---- model
+    # ---- model (runs in the background while behaviours are generated and replayed; joined at the end)
     def tlc(job):
         name, cfg, cov = job
-        return vlib.run_tlc("MC_Retention", cfg, workers=max(2, WORKERS // 2), timeout=1500, coverage=cov)
+        return vlib.run_tlc("MC_Retention", cfg, workers=3, timeout=1500, coverage=cov)
     jobs = [("time pass as coded (crash x2, repeat)", "MC_Retention_time.cfg" if quick else "MC_Retention_time_deep.cfg", quick),
             ("all passes, intended design (must hold)", "MC_Retention_intended.cfg", quick),
             ("as coded: volume order", "MC_Retention_ascoded_order.cfg", False),
             ("as coded: inode pass interrupted", "MC_Retention_ascoded_inode.cfg", False),
             ("as coded: empty-PQ meta", "MC_Retention_ascoded_pq.cfg", False)]
-    results = vlib.pmap(tlc, jobs, workers=2)
-    for (name, cfg, cov), r in zip(jobs, results):
-        if cfg.startswith("MC_Retention_ascoded"):
-            if r.error:
-                raise vlib.Infra("%s: TLC failed (%s)\n%s" % (cfg, r.error, r.out[-2000:]))
-            chk.add_tlc(cfg, r, name + "; expected to violate: %s" % r.violated)
-            chk.cov.setdefault("model_sensitivity", {})[cfg] = r.violated
-            if not r.violated:
-                chk.cov["model_sensitivity"][cfg] = "no violation (the modelled deviation of the code is gone?)"
-        else:
-            vlib.tlc_must_hold(r, cfg)
-            if cov and r.coverage_zero:
-                raise vlib.Infra("%s: vacuous actions %s" % (cfg, r.coverage_zero))
-            chk.add_tlc(cfg, r, name + "; Consistent/TimeExact/OldestFirst/Idempotent/NoNeedlessDeletion")
+    if not quick:
+        jobs.insert(2, ("volume + inode passes, intended design, 4 segments (must hold)", "MC_Retention_intended_deep.cfg", False))
+
+    def model_results(results):
+        for (name, cfg, cov), r in zip(jobs, results):
+            if cfg.startswith("MC_Retention_ascoded"):
+                if r.error:
+                    raise vlib.Infra("%s: TLC failed (%s)\n%s" % (cfg, r.error, r.out[-2000:]))
+                chk.add_tlc(cfg, r, name + "; expected to violate: %s" % r.violated)
+                chk.cov.setdefault("model_sensitivity", {})[cfg] = r.violated or \
+                    "no violation (the modelled deviation of the code is gone?)"
+            else:
+                vlib.tlc_must_hold(r, cfg)
+                if cov and r.coverage_zero:
+                    raise vlib.Infra("%s: vacuous actions %s" % (cfg, r.coverage_zero))
+                chk.add_tlc(cfg, r, name + "; Consistent/TimeExact/OldestFirst/Idempotent/NoNeedlessDeletion")
 
     # ---- behaviours
     gens = [("time", "Gen_Retention_time.cfg" if quick else "Gen_Retention_time_deep.cfg"),
@@ -880,6 +886,16 @@ def run(chk):
         behs[name] = bs
     for b in behs["pq"]:
         b["pq_scenario"] = True
+    ex = cf.ThreadPoolExecutor(max_workers=2)
+    futs = [ex.submit(tlc, j) for j in jobs]
+    try:
+        replay_all(chk, quick, rnd, binary, mount_ok, behs)
+        model_results([f.result() for f in futs])
+    finally:
+        ex.shutdown(wait=True)
+
+
+def replay_all(chk, quick, rnd, binary, mount_ok, behs):
 
     def has_met(b):
         return any(s["kind"] == "met" for s in b["segs"])
@@ -893,22 +909,22 @@ def run(chk):
     g_nomet = {k: v for k, v in g_time.items() if not has_met(v[0]) and interesting_time(v[0])}
     g_met = {k: v for k, v in g_time.items() if has_met(v[0]) and interesting_time(v[0])}
     g_rest = {k: v for k, v in g_time.items() if not interesting_time(v[0])}
-    plan += pick(g_nomet, rnd, 10 if quick else 120, 2 if quick else None)
-    plan += pick(g_met, rnd, 5 if quick else 60, 1 if quick else None)
-    plan += pick(g_rest, rnd, 2 if quick else 20, 1)
+    plan += pick(g_nomet, rnd, 8 if quick else 80, 2 if quick else None)
+    plan += pick(g_met, rnd, 4 if quick else 24, 1 if quick else None)
+    plan += pick(g_rest, rnd, 2 if quick else 10, 1)
     g_pq = {k: v for k, v in group(behs["pq"]).items() if v[0]["pq0"]}
-    plan += pick(g_pq, rnd, 1 if quick else 6, 1 if quick else 2,
+    plan += pick(g_pq, rnd, 1 if quick else 3, 1 if quick else 2,
                  prefer=lambda b: any(b["segs"][i - 1]["hi"] < 0 for i in b["pq0"]))
     g_vol = group(behs["volume"])
-    plan += pick({k: v for k, v in g_vol.items() if not has_met(v[0])}, rnd, 3 if quick else 40, 1 if quick else 3)
-    plan += pick({k: v for k, v in g_vol.items() if has_met(v[0])}, rnd, 3 if quick else 40, 1 if quick else 3,
+    plan += pick({k: v for k, v in g_vol.items() if not has_met(v[0])}, rnd, 3 if quick else 24, 1 if quick else 3)
+    plan += pick({k: v for k, v in g_vol.items() if has_met(v[0])}, rnd, 3 if quick else 24, 1 if quick else 3,
                  prefer=lambda b: not b["ok"]["oldest"])
     inode_plan = []
     if mount_ok:
         g_ino = {k: v for k, v in group(behs["inode"]).items() if not has_met(v[0])}
         g_inom = {k: v for k, v in group(behs["inode"]).items() if has_met(v[0])}
-        inode_plan += pick(g_ino, rnd, 5 if quick else 60, 1 if quick else 3)
-        inode_plan += pick(g_inom, rnd, 1 if quick else 20, 1 if quick else 2)
+        inode_plan += pick(g_ino, rnd, 5 if quick else 40, 1 if quick else 3)
+        inode_plan += pick(g_inom, rnd, 1 if quick else 8, 1 if quick else 2)
         plan += inode_plan
     else:
         chk.cov["inode_pass"] = "SKIPPED: mounting a tmpfs is not permitted here"
@@ -926,23 +942,32 @@ def run(chk):
             return run_behaviour(binary, b, conc, mount_ok, victims), conc
         except Skip as e:
             return {"skip": str(e)}, conc
-    # phase 1: the uninterrupted pass of every scenario (also tells which segments the REAL selection takes)
+    # phase 1: the uninterrupted pass of every scenario (also tells which segments the REAL selection takes);
+    # phase 2 (as soon as the scenario's phase 1 is done): the same scenario interrupted after step k, restarted,
+    # pass repeated
     t1 = order([(sid, b, seed_of(sid), None) for sid, base, crs in plan for b in base])
-    o1 = vlib.pmap(work, t1, workers=WORKERS)
-    refs = {t[0]: r for t, (r, c) in zip(t1, o1)}
-    # phase 2: the same scenarios interrupted after step k, restarted, pass repeated
-    t2 = []
-    for sid, base, crs in plan:
-        r = refs.get(sid)
-        for b in crs:
-            if r is None or "final" not in r:
-                continue
-            t2.append((sid, b, seed_of(sid), real_victims(r)))
-    t2 = order(t2)
-    o2 = vlib.pmap(work, t2, workers=WORKERS)
-    tasks = [(t[0], t[1], t[2]) for t in t1 + t2]
-    outs = o1 + o2
+    crs_of = {sid: crs for sid, base, crs in plan}
+    tasks, outs = [], []
+    with cf.ThreadPoolExecutor(max_workers=WORKERS) as ex:
+        f1 = {ex.submit(work, t): t for t in t1}
+        f2 = {}
+        for f in cf.as_completed(list(f1)):
+            t = f1[f]
+            r, c = f.result()
+            tasks.append((t[0], t[1], t[2]))
+            outs.append((r, c))
+            if "final" in r:
+                for b in crs_of.get(t[0], []):
+                    t2 = (t[0], b, t[2], real_victims(r))
+                    f2[ex.submit(work, t2)] = t2
+        for f in cf.as_completed(list(f2)):
+            t = f2[f]
+            tasks.append((t[0], t[1], t[2]))
+            outs.append(f.result())
 
+    # completion order is arbitrary: fix the order in which findings are reported
+    both = sorted(zip(tasks, outs), key=lambda x: (x[0][0], x[0][1]["crashes"], json.dumps(x[0][1]["steps"], sort_keys=True)))
+    tasks, outs = [x[0] for x in both], [x[1] for x in both]
     ref = {}
     for (sid, b, seed), (res, conc) in zip(tasks, outs):
         if b["crashes"] == 0 and "skip" not in res:
@@ -978,7 +1003,9 @@ def run(chk):
     chk.cov["model_predicted_failure_not_reproduced"] = len(fixed)
     if n_done == 0:
         raise vlib.Infra("no behaviour could be replayed: %s" % skipped)
-    if drift and not chk.violations and not chk.known_hits:
+    if skipped.get("engine-killed-by-signal", 0) > max(3, n_done // 10):
+        raise vlib.Infra("too many engine processes were killed from outside (SIGKILL/SIGTERM): %s" % skipped)
+    if drift and not chk.violations:
         raise vlib.Infra("SPEC-DRIFT: the real engine ends in a state the spec does not predict although the property "
                          "holds: %s" % json.dumps(drift[0])[:1500])
     chk.cov["spec_drift_cases"] = len(drift)
